@@ -883,3 +883,94 @@ func g17ArgTypesFromDeclaration(c *Ctx) {
 		rep.pass("G17")
 	}
 }
+
+// g24FirstArgNotNil — the literal nil has the type `untyped nil`, which cannot be printed as a parameter type. (*pkg).Add, through
+// which every call reaches its plugin, must reject a call whose first argument has that type before handing it to the plugin:
+// an if statement that dominates the generator's Add call, whose condition tests the Kind() of call.Args[0] (asserted to
+// *types.Basic) against types.UntypedNil and whose body returns a non-nil error. Engine R takes the first argument of its
+// abstract input space to be typed exactly when this holds.
+func g24FirstArgNotNil(c *Ctx) bool {
+	if v, ok := g24Memo[c.Repo]; ok {
+		return v
+	}
+	r := c.Repo
+	res := false
+	defer func() { g24Memo[c.Repo] = res }()
+	fi := r.lookup("derive.(*pkg).Add")
+	if fi == nil {
+		return false
+	}
+	info := fi.Pkg.TypesInfo
+	g := newGraph(fi.Decl.Body, func(*ast.CallExpr) bool { return true })
+	var genAdd *ast.CallExpr
+	ast.Inspect(fi.Decl.Body, func(n ast.Node) bool {
+		if call, ok := n.(*ast.CallExpr); ok {
+			if fn, ok := callee(info, call).(*types.Func); ok && fn.Name() == "Add" && fn.Pkg() != nil && strings.HasSuffix(fn.Pkg().Path(), "/derive") {
+				if sig := fn.Type().(*types.Signature); sig.Recv() != nil && types.IsInterface(sig.Recv().Type()) {
+					genAdd = call
+				}
+			}
+		}
+		return true
+	})
+	if genAdd == nil {
+		return false
+	}
+	ast.Inspect(fi.Decl.Body, func(n ast.Node) bool {
+		ifs, ok := n.(*ast.IfStmt)
+		if !ok || res {
+			return true
+		}
+		// init: basic, ok := call.Args[0].(*types.Basic)
+		as, ok := ifs.Init.(*ast.AssignStmt)
+		if !ok || len(as.Rhs) != 1 {
+			return true
+		}
+		ta, ok := as.Rhs[0].(*ast.TypeAssertExpr)
+		if !ok || !strings.HasSuffix(exprStr(ta.X), ".Args[0]") || exprStr(ta.Type) != "*types.Basic" {
+			return true
+		}
+		condOK := false
+		ast.Inspect(ifs.Cond, func(m ast.Node) bool {
+			if be, ok := m.(*ast.BinaryExpr); ok && be.Op == token.EQL && strings.HasSuffix(exprStr(be.X), ".Kind()") {
+				if tv, has := info.Types[be.Y]; has && tv.Value != nil && tv.Value.String() == fmt.Sprint(int(types.UntypedNil)) {
+					condOK = true
+				}
+			}
+			return true
+		})
+		if be, ok := ifs.Cond.(*ast.BinaryExpr); !ok || be.Op != token.LAND {
+			condOK = false // the test must not be weakened by a disjunction
+		}
+		if !condOK {
+			return true
+		}
+		returnsErr := false
+		for _, st := range ifs.Body.List {
+			if ret, ok := st.(*ast.ReturnStmt); ok && len(ret.Results) == 2 {
+				if id, isID := ret.Results[1].(*ast.Ident); !isID || id.Name != "nil" {
+					returnsErr = true
+				}
+			}
+		}
+		anchor := ifs.Cond.Pos()
+		// `if len(call.Args) > 0 { if basic, ok := … }`: a call without arguments has no first argument
+		ast.Inspect(fi.Decl.Body, func(k ast.Node) bool {
+			outer, ok := k.(*ast.IfStmt)
+			if !ok || outer.Else != nil || len(outer.Body.List) == 0 || outer.Body.List[0] != ast.Stmt(ifs) {
+				return true
+			}
+			if be, ok := outer.Cond.(*ast.BinaryExpr); ok && (be.Op == token.GTR || be.Op == token.NEQ) && strings.HasPrefix(exprStr(be.X), "len(") && strings.HasSuffix(exprStr(be.X), ".Args)") && exprStr(be.Y) == "0" {
+				anchor = outer.Cond.Pos()
+			}
+			return true
+		})
+		if returnsErr && g.posDominates(anchor, genAdd.Pos()) {
+			res = true
+		}
+		return true
+	})
+	return res
+}
+
+var g24Memo = map[*Repo]bool{}
